@@ -109,6 +109,7 @@ type Gen struct {
 	header    []string // sort/function declarations, axioms
 	lines     []Line // path definitions
 	declared  map[string]bool
+	divSeen   map[string]bool
 	nfresh    int
 	obls      []*Obligation
 	notes     map[string]int // assumptions relied upon (havoc calls etc.)
